@@ -38,6 +38,7 @@ class Connection:
     if self.is_connected():
       raise gfapy.RuntimeError(
         "Line {} is already connected to a GFA instance".format(self))
+    self._validate_no_reference_to_own_name()
     previous = gfa._search_duplicate(self)
     if previous:
       if previous.virtual:
@@ -49,6 +50,25 @@ class Connection:
       self._initialize_references()
       self._gfa._register_line(self)
       return None
+
+  def _validate_no_reference_to_own_name(self):
+    if self.__class__.STORAGE_KEY != "name":
+      return
+    name = self.name
+    if not isinstance(name, str) or gfapy.is_placeholder(name):
+      return
+    for k in self.__class__.REFERENCE_FIELDS:
+      value = self.get(k)
+      for ref in (value if isinstance(value, list) else [value]):
+        if isinstance(ref, gfapy.OrientedLine):
+          ref = ref.line
+        if isinstance(ref, gfapy.Line):
+          ref = ref.name
+        if ref == name:
+          raise gfapy.NotUniqueError(
+            "The line refers to its own identifier ({}) ".format(name)+
+            "in the field {}\n".format(k)+
+            "Line: {}".format(self))
 
   @property
   def all_references(self):
